@@ -1,4 +1,235 @@
-import RattrModel.FnAnalyser
+/-
+  C02 — nothing is reported that the body does not do (no phantom name, right kind).
+
+  Model: `FnA.visit … / FnA.analyse` (RattrModel/FnAnalyser.lean). Spec: `AccessSpec`
+  (RattrProofs/Lemmas/VisitSpec.lean) + the justification rules below.
+
+  C02 is believed to HOLD on the pinned code; no counterexample is known. Proved here, for all
+  inputs:
+    * `C02_kind_by_ctx`: `update_results` touches exactly the set selected by the expression
+      context and adds exactly the given name;
+    * `C02_name_spelling`: visiting a name chain adds exactly its README spelling (with its root
+      identifier as basename) to exactly the set of its context, and nothing else anywhere;
+    * `C02_fresh_ir`, `C02_scope_balance`: `analyse` starts from the empty IR in a fresh scope
+      (a function of `(env, mn, root, ps, body)` only) and returns a context as deep as `root`;
+    * `C02_receiver_prefixes`: the receiver-prefix rule only adds dotted prefixes (≥ 2 components,
+      strictly shorter than the callee name) with the first component as basename.
+    * `C02_partial`: the full upper bound on the fragment "generic nodes over pure chains".
+  NOT proved: `C02_full` itself (the upper bound for every constructor). It needs the invariant
+  "everything in the IR is justified by the part of the body visited so far" carried through the
+  whole mutual block, exactly like `visit_mono` in Lemmas/Visit.lean carries `StLe`; the
+  per-constructor facts above are the leaves of that induction.
+-/
+import RattrProofs.Lemmas.Visit
+import RattrProofs.Lemmas.VisitSpec
+
 namespace Rattr.C02
-theorem placeholder : True := trivial
+open Rattr Rattr.FnA Rattr.Strs Rattr.AccessSpec
+
+/-! ### full statement -/
+
+mutual
+/-- every nameable node ANYWHERE in the sub-tree (inner links of chains, callee expressions and
+nested scopes included): names with the kind of their ctx, calls as kind `call`. -/
+def occ : Node → List Access
+  | .name id c => [⟨kindOf c, id, id⟩]
+  | .attr v a c => ⟨kindOf c, spell (.attr v a c), baseOf v⟩ :: occ v
+  | .sub v sl c => ⟨kindOf c, spell (.sub v sl c), baseOf v⟩ :: occ v ++ occ sl
+  | .starred v c => ⟨kindOf c, spell (.starred v c), baseOf v⟩ :: occ v
+  | .call f args _ kwv => ⟨.call, withoutCallBrackets (spell f), baseOf f⟩ :: occ f ++ occL args ++ occL kwv
+  | .lam _ body => occ body
+  | .comp _ elts gens => occL gens ++ occL elts
+  | .gen t it ifs => occ t ++ occ it ++ occL ifs
+  | .walrus t v => occ t ++ occ v
+  | .strConst _ => []
+  | .const => []
+  | .seq _ elts _ => occL elts
+  | .dict ks vs => occL ks ++ occL vs
+  | .assign ts v => occL ts ++ occ v
+  | .annAssign t ann v => occ t ++ occ ann ++ occL v
+  | .augAssign t v => occ t ++ occ v
+  | .delete ts => occL ts
+  | .forLoop t it body orelse => occ t ++ occ it ++ occL body ++ occL orelse
+  | .withStmt items body => occL items ++ occL body
+  | .withitem ce vars => occ ce ++ occL vars
+  | .funcDef _ _ body => occL body
+  | .classDef _ => []
+  | .ret v => occL v
+  | .forbidden _ => []
+  | .other _ kids => occL kids
+def occL : List Node → List Access
+  | [] => []
+  | n :: r => occ n ++ occL r
+end
+
+/-- `p` is a dotted prefix of `name` with at least 2 components and strictly fewer than `name`. -/
+def IsReceiverPrefix (p name : Str) : Prop :=
+  ∃ i, 2 ≤ i ∧ i < (splitDot name).length ∧ p = joinDot ((splitDot name).take i)
+
+/-- the callee names of the custom-analysed calls (plugins) of the pinned code. -/
+def pluginCallees : List Str :=
+  ["getattr".toList, "hasattr".toList, "setattr".toList, "delattr".toList, "sorted".toList,
+   "defaultdict".toList, "collections.defaultdict".toList]
+
+/-- a reported `(kind, name)` is justified by the body. The last disjunct is deliberately coarse
+(and NAMED): "the body contains a call to a custom-analysed callee" stands for the three plugin
+derivations (getattr-family target and its prefixes; `sorted(xs, key=lambda x: x.k)` ↦ `xs.k`;
+`defaultdict(factory)` ↦ call `factory`) that DESIGN §5 lists as separate disjuncts. -/
+def Justified (body : List Node) (k : Kind) (n : Str) : Prop :=
+  (∃ a ∈ occL body, a.kind = k ∧ a.name = n) ∨                                      -- (occ)
+  (k = .get ∧ ∃ a ∈ occL body, a.kind = .call ∧ IsReceiverPrefix n a.name) ∨         -- (prefix)
+  ((removeChar n '*').head? = some '@') ∨                                            -- (standin)
+  (∃ a ∈ occL body, a.kind = .call ∧ a.name ∈ pluginCallees)                         -- (plugin)
+
+def C02_full : Prop :=
+  ∀ (env : Env) (mn : Str) (root : Context) (ps : Params) (body : List Node) (s' : St),
+    analyse env mn root ps body = .ok s' →
+      (∀ x ∈ s'.gets, Justified body .get x.full) ∧ (∀ x ∈ s'.sets, Justified body .set x.full) ∧
+      (∀ x ∈ s'.dels, Justified body .del x.full) ∧ (∀ c ∈ s'.calls, Justified body .call c.name)
+
+/-! ### `update_results` -/
+
+/-- the set an expression context selects. -/
+def irOf (c : ECtx) (s : St) : List NameS :=
+  match c with
+  | .load => s.gets
+  | .store => s.sets
+  | .del => s.dels
+
+/-- `update_results(name, ctx)`: the set selected by `ctx` gains exactly `n`; every other
+component of the state (the two other sets, calls, context, diagnostics) is unchanged. -/
+theorem C02_kind_by_ctx (s : St) (n : NameS) (c : ECtx) :
+    (∀ x, x ∈ irOf c (updateResults s n c) ↔ x ∈ irOf c s ∨ x = n) ∧
+    (∀ c', c' ≠ c → irOf c' (updateResults s n c) = irOf c' s) ∧
+    (updateResults s n c).calls = s.calls ∧ (updateResults s n c).ctx = s.ctx ∧
+    (updateResults s n c).diags = s.diags := by
+  cases c <;>
+    refine ⟨fun x => mem_addTo, fun c' hc' => ?_, rfl, rfl, rfl⟩ <;>
+    cases c' <;> first | rfl | exact absurd rfl hc'
+
+/-! ### chains -/
+
+/-- visiting a name chain adds exactly `⟨chainSpell n, chainBase n⟩` to exactly the set of its
+context; calls and context are untouched; when the root identifier is known to the context no
+diagnostic is emitted either. -/
+theorem C02_name_spelling (env : Env) (mn : Str) (n : Node) (hn : isChain n = true) (s s' : St)
+    (h : visit env mn n s = .ok s') :
+    (∀ c x, x ∈ irOf c s' ↔ x ∈ irOf c s ∨ (c = chainCtx n ∧ x = ⟨chainSpell n, chainBase n⟩)) ∧
+    s'.calls = s.calls ∧ s'.ctx = s.ctx ∧
+    (Context.contains s.ctx (chainBase n) = true → s'.diags = s.diags) := by
+  rw [visit_chain env mn n hn s] at h
+  injection h with h
+  subst h
+  obtain ⟨hx, hg, hs, hd, hc⟩ := warnUndef_ir s (chainBase n) (chainCtx n)
+  have hk := C02_kind_by_ctx (warnUndef s (chainBase n) (chainCtx n)) ⟨chainSpell n, chainBase n⟩ (chainCtx n)
+  have hir : ∀ c, irOf c (warnUndef s (chainBase n) (chainCtx n)) = irOf c s := by
+    intro c; cases c <;> simp [irOf, hg, hs, hd]
+  refine ⟨fun c x => ?_, by rw [hk.2.2.1, hc], by rw [hk.2.2.2.1, hx], fun hdecl => ?_⟩
+  · by_cases hcc : c = chainCtx n
+    · subst hcc
+      rw [hk.1 x, hir]
+      simp
+    · rw [hk.2.1 c hcc, hir]
+      simp [hcc]
+  · rw [hk.2.2.2.2, warnUndef_declared s _ _ hdecl]
+
+/-! ### freshness and scope balance -/
+
+/-- `analyse` is a function of `(env, mn, root, ps, body)` only: it runs the body from the EMPTY
+IR in a freshly pushed scope holding the parameters — nothing of any other callable's analysis
+enters. -/
+theorem C02_fresh_ir (env : Env) (mn : Str) (root : Context) (ps : Params) (body : List Node) :
+    analyse env mn root ps body =
+      (visitList env mn body (analyseInit root ps) >>>= fun s => .ok { s with ctx := Context.pop s.ctx }) ∧
+    (analyseInit root ps).gets = [] ∧ (analyseInit root ps).sets = [] ∧
+    (analyseInit root ps).dels = [] ∧ (analyseInit root ps).calls = [] ∧
+    (analyseInit root ps).diags = [] ∧ (analyseInit root ps).ctx.length = root.length + 1 :=
+  ⟨rfl, rfl, rfl, rfl, rfl, rfl, analyseInit_ctx_length root ps⟩
+
+/-- scope balance: every scope the visitor pushes (lambda, comprehension, nested def, plugin
+sub-analysers) is popped again — the returned context is as deep as `root`. Proved through the
+whole mutual block (`visit_mono`). -/
+theorem C02_scope_balance (env : Env) (mn : Str) (root : Context) (ps : Params) (body : List Node)
+    (s' : St) (h : analyse env mn root ps body = .ok s') : s'.ctx.length = root.length := by
+  obtain ⟨_, _, _, _, hl⟩ := analyse_inv h
+  exact hl
+
+/-- the same for any sub-tree visited in a non-empty context. -/
+theorem C02_scope_balance_visit (env : Env) (mn : Str) (n : Node) (s s' : St) (hs : s.ctx ≠ [])
+    (h : visit env mn n s = .ok s') : s'.ctx.length = s.ctx.length :=
+  (visit_mono env mn n s s' h).depth hs
+
+/-! ### the receiver-prefix rule -/
+
+theorem mem_drop_one_range {n j : Nat} (h : j ∈ (List.range n).drop 1) : 1 ≤ j ∧ j < n := by
+  obtain ⟨i, hi, rfl⟩ := List.mem_iff_getElem.mp h
+  simp at hi ⊢
+  omega
+
+/-- every name the rule `a.b.c()` ↦ gets `a.b` adds is a dotted prefix of the callee name with at
+least 2 components, strictly shorter than the callee name (i.e. a prefix of the receiver), and its
+basename is the first component. -/
+theorem C02_receiver_prefixes (fullname : Str) (x : NameS) (hx : x ∈ receiverPrefixes fullname) :
+    IsReceiverPrefix x.full (withoutCallBrackets fullname) ∧
+    (splitDot (withoutCallBrackets fullname)).head? = some x.base := by
+  unfold receiverPrefixes at hx
+  simp only at hx
+  unfold IsReceiverPrefix
+  generalize splitDot (withoutCallBrackets fullname) = comps at hx ⊢
+  cases hp : comps.dropLast with
+  | nil => rw [hp] at hx; simp at hx
+  | cons p0 r =>
+    rw [hp] at hx
+    simp only at hx
+    obtain ⟨j, hj, rfl⟩ := List.mem_map.mp hx
+    obtain ⟨h1, h2⟩ := mem_drop_one_range hj
+    have hlen : comps.dropLast.length = comps.length - 1 := List.length_dropLast
+    rw [hp] at hlen
+    refine ⟨⟨j + 1, by omega, by omega, ?_⟩, ?_⟩
+    · simp only
+      rw [← hp, List.dropLast_eq_take, List.take_take]
+      congr 2
+      omega
+    · simp only
+      match comps, hp with
+      | a :: b :: r', hp =>
+        simp only [List.dropLast, List.cons.injEq] at hp
+        simp [hp.1]
+
+/-! ### the upper bound on a fragment -/
+
+/-- C02 on the fragment "generic nodes over pure chains" (`AccessSpec.simple`, see `C01_partial`):
+every reported name is — with its kind and its basename — an access the spec lists for the body,
+and no call is reported. (Together with `C01_partial`: on this fragment the IR is EXACTLY the
+spec's access list.) -/
+theorem C02_partial (env : Env) (mn : Str) (root : Context) (ps : Params) (body : List Node)
+    (hb : simpleL body = true) (s' : St) (h : analyse env mn root ps body = .ok s') :
+    (∀ x ∈ s'.gets, (⟨.get, x.full, x.base⟩ : Access) ∈ accessesL body) ∧
+    (∀ x ∈ s'.sets, (⟨.set, x.full, x.base⟩ : Access) ∈ accessesL body) ∧
+    (∀ x ∈ s'.dels, (⟨.del, x.full, x.base⟩ : Access) ∈ accessesL body) ∧ s'.calls = [] := by
+  obtain ⟨u, hu, g⟩ := visitList_simple env mn body hb (analyseInit root ps)
+  rw [analyse_eq, hu] at h
+  injection h with h
+  subst h
+  refine ⟨fun x hx => ?_, fun x hx => ?_, fun x hx => ?_, g.calls⟩
+  · rcases (g.gets x).mp hx with h0 | h0
+    · cases h0
+    · exact h0
+  · rcases (g.sets x).mp hx with h0 | h0
+    · cases h0
+    · exact h0
+  · rcases (g.dels x).mp hx with h0 | h0
+    · cases h0
+    · exact h0
+
+/-! ### non-vacuity -/
+
+/-- `a.b.c.d()` adds `a.b` and `a.b.c`, both with basename `a`. -/
+example : receiverPrefixes "a.b.c.d()".toList =
+    [⟨"a.b".toList, "a".toList⟩, ⟨"a.b.c".toList, "a".toList⟩] := by decide +kernel
+
+/-- `C02_name_spelling` on `del a.b[0]` from the state `analyse` starts with. -/
+example : ∃ s', visit ⟨⟨[], []⟩, []⟩ [] (.sub (.attr (.name ['a'] .load) ['b'] .load) .const .del)
+    (analyseInit [] ⟨[], [['a']], none, [], none⟩) = .ok s' := ⟨_, visit_chain _ _ _ (by decide) _⟩
+
 end Rattr.C02
